@@ -31,6 +31,9 @@ type c13Case struct {
 	// of one holder (at release_ns) therefore offers nothing: the caller is woken / looked at, finds no capacity and
 	// must still come back exactly at its bound.
 	NoCap bool `json:"no_cap,omitempty"`
+	// Ghosts (blocking / deadline, capacity taken): that many earlier callers blocked and gave up (cancelled) before the
+	// case's caller arrives - a limiter that has been saturated for a long time
+	Ghosts int `json:"ghosts,omitempty"`
 }
 
 func genC13(t *rapid.T) c13Case {
@@ -111,6 +114,9 @@ func genC13(t *rapid.T) c13Case {
 	if !c.HasCancel && !c.Free && c.Stack.Kind != "blocking" && bound > 0 && rapid.Bool().Draw(t, "rival") {
 		c.Rival = true
 	}
+	if !c.Free && (c.Stack.Kind == "blocking" || c.Stack.Kind == "deadline") && c.Stack.DeadlineFar != 4 && rapid.IntRange(0, 19).Draw(t, "ghosts") == 0 {
+		c.Ghosts = rapid.SampledFrom([]int{3, 100, 1023, 1024, 1025, 1500}).Draw(t, "ghostN")
+	}
 	if !c.Free && !c.Rival && c.HasRel && c.Stack.Kind != "pool" && rapid.IntRange(0, 2).Draw(t, "noCap") == 0 {
 		c.NoCap = true
 		c.Stack.Limit = 2
@@ -168,6 +174,13 @@ func runC13InBubble(c c13Case) (out kit.Outcome) {
 		rival = w.newCaller("a", 0, 0)
 	}
 
+	for g := 0; g < c.Ghosts && holder != nil; g++ {
+		gc := w.newCaller("a", 0, 0)
+		w.start(gc)
+		synctest.Wait()
+		gc.cancel()
+		synctest.Wait()
+	}
 	type ev struct {
 		at   time.Duration
 		kind int // 0 cancel, 1 release, 2 arrive
@@ -401,6 +414,9 @@ func runC13InBubble(c c13Case) (out kit.Outcome) {
 	}
 	if c.NoCap {
 		out.Labels = append(out.Labels, "release-without-usable-capacity")
+	}
+	if c.Ghosts >= 1000 {
+		out.Labels = append(out.Labels, "after->=1000-abandoned-waits")
 	}
 	if c.Stack.DeadlineFar > 0 {
 		out.Labels = append(out.Labels, "deadline-far-future")
